@@ -1,5 +1,6 @@
 use crate::core::Run;
 pub mod c01;
+pub mod c15;
 pub mod c19;
 pub mod cal;
 pub mod c03;
@@ -17,6 +18,7 @@ pub mod c14;
 pub fn dispatch(prop: &str, run: &mut Run) {
     match prop {
         "CAL" => cal::run(run),
+        "C15" => c15::run(run),
         "C19" => c19::run(run),
         "C01" => c01::run(run),
         "C03" => c03::run(run),
